@@ -4,6 +4,10 @@ open M4model
 exception Die of string
 exception Unsupported of string
 
+(* value of the last "ret <int>" line printed (tokens "ret" in later commands, dumppermr, dumpifret0) *)
+let lastret : int ref = ref 0
+let print_ret (v : int) = lastret := v; Printf.printf "ret %d\n" v
+
 (* ---------- conversions between OCaml ints / hex strings and the extracted datatypes ---------- *)
 let rec nat_of_int i = if i <= 0 then O else S (nat_of_int (i - 1))
 let nat_of_int =
@@ -56,3 +60,11 @@ let hex_of_n (x : n) : string =
     done;
     Bytes.to_string buf
 
+
+(* ---------- Z <-> signed hexadecimal ("-1f", "7fffffffffffffff") ---------- *)
+let z_of_shex (s : string) : z =
+  if String.length s > 0 && s.[0] = '-' then x_z_opp (x_z_of_N (n_of_hex (String.sub s 1 (String.length s - 1))))
+  else x_z_of_N (n_of_hex s)
+let shex_of_z (v : z) : string =
+  let neg = x_z_ltb v (x_z_of_N N0) in
+  (if neg then "-" else "") ^ hex_of_n (x_z_abs_N v)
